@@ -1,4 +1,4 @@
 CONSTANTS Tier = "q"  Emit = TRUE
 SPECIFICATION Spec
-INVARIANT TypeOK TextRoundTrip DictRoundTrip BinRoundTrip BinPrefix
+INVARIANT TypeOK TextRoundTrip CharsRoundTrip DictRoundTrip BinRoundTrip BinPrefix
 CHECK_DEADLOCK FALSE
